@@ -62,6 +62,8 @@ def enabled(done, params):
                 if p not in done and (need is None or need in done):
                     out.append(p)
                     break
+    if params.get('stdout100') and 'C' in done and 'L' not in done:
+        out.append('L')
     for s in ('T', 'X'):
         if s not in done:
             out.append(s)
@@ -145,6 +147,9 @@ def run_launch(params, order):
                             cut = MARKER_LINE.index(b'Opening') + k
                             pp.outReceived(MARKER_LINE[:cut])
                             pp.outReceived(MARKER_LINE[cut:])
+                    elif step == 'L':
+                        # Tor's own log on stdout says so too - but the launch result depends on the control connection only
+                        pp.outReceived(b'Oct 03 12:00:01.000 [notice] Bootstrapped 100% (done): Done\n')
                     elif step == 'E':
                         try:
                             pp.errReceived(b'[warn] something on stderr\n')
@@ -273,6 +278,7 @@ def param_sets(tier):
     out.append(dict(base))
     out.append(dict(base, own='reject'))
     out.append(dict(base, own='reject-reset'))
+    out.append(dict(base, stdout100=True))
     out.append(dict(base, exit='signal', datadir='user'))
     out.append(dict(base, exit='code0', kill_on_stderr=True))
     out.append(dict(base, connect='refused'))
